@@ -52,10 +52,11 @@ type Solver struct {
 	args    []string
 	log     io.Writer
 	timeout int // ms per check-sat
+	Gen     int // bumped whenever the solver lost its assertions
 }
 
 func NewSolver(tb *TermTable, timeoutMs int) *Solver {
-	s := &Solver{tb: tb, bin: "z3", timeout: timeoutMs}
+	s := &Solver{tb: tb, bin: envDefault("SYMX_SOLVER", "z3-new"), timeout: timeoutMs}
 	s.args = []string{"-in", "-smt2", fmt.Sprintf("-t:%d", timeoutMs)}
 	if p := os.Getenv("SYMX_SMTLOG"); p != "" {
 		f, err := os.Create(p)
@@ -117,6 +118,28 @@ func (s *Solver) flush() {
 	if _, err := io.WriteString(s.in, str); err != nil {
 		panic(engineError{"solver write: " + err.Error()})
 	}
+}
+
+func (s *Solver) readLineErr() (string, error) {
+	line, err := s.out.ReadString('\n')
+	if err != nil {
+		return "", err
+	}
+	if s.log != nil {
+		io.WriteString(s.log, "; <- "+line)
+	}
+	return strings.TrimRight(line, "\r\n"), nil
+}
+
+// Reset clears the solver state completely (all scopes).
+func (s *Solver) Reset() {
+	s.defined = map[int]bool{}
+	s.ufDecl = map[string]bool{}
+	s.trail = s.trail[:0]
+	s.ufTrail = s.ufTrail[:0]
+	s.marks = s.marks[:0]
+	s.send("(reset)\n(set-option :produce-models true)\n(set-logic ALL)\n")
+	s.Gen++
 }
 
 func (s *Solver) readLine() string {
@@ -214,8 +237,32 @@ func (s *Solver) Check() Result {
 	start := time.Now()
 	s.flush()
 	var r Result
+	killed := false
+	wd := time.AfterFunc(time.Duration(s.timeout)*time.Millisecond+5*time.Second, func() {
+		killed = true
+		s.cmd.Process.Kill()
+	})
+	defer wd.Stop()
 	for {
-		line := s.readLine()
+		line, rerr := s.readLineErr()
+		if rerr != nil {
+			if killed {
+				// the solver ignored its soft timeout: restart it and
+				// report unknown; the caller re-sends its assertions
+				s.Stats.Restarts++
+				depth := len(s.marks)
+				s.cmd.Wait()
+				s.start()
+				for i := 0; i < depth; i++ {
+					s.marks = append(s.marks, [2]int{0, 0})
+					s.send("(push 1)\n")
+				}
+				s.Gen++
+				r = Unknown
+				break
+			}
+			panic(engineError{"solver read: " + rerr.Error()})
+		}
 		switch {
 		case line == "sat":
 			r = Sat
